@@ -12,6 +12,65 @@ inductive HSt where
 structure St where
   tab : List Nat := []
   hmm : HSt := .none
+  cov : List String := []
+
+def addCov (s : St) (tags : List String) : St :=
+  { s with cov := tags.foldl (fun acc t => if acc.contains t then acc else t :: acc) s.cov }
+
+/-- which branches of `hmm3Step` an input takes (re-evaluates the model's own block functions; coverage only) -/
+def tags3 (tp : Nat → Nat → Nat) (c0 c1 c2 : Int) (h : H3) : List String :=
+  let s2 := h.s2 + -c2
+  let s1 := h.s1 + -c1
+  let s0 := h.s0 + -c0
+  let a := exit3 tp s1 s2 h
+  let t0 := s2 + tprob tp 2 2
+  let t1 := s1 + tprob tp 1 2
+  let t2 := if tprob tp 0 2 > SSVerif.Generated.Ranges.tmatWorstScore then s0 + tprob tp 0 2 else a.t2
+  let p := pick3 t0 t1 t2 0 1 2
+  [ if s1 > WORST then "hmm3.exit.evaluated" else "hmm3.exit.skipped(s1<=WORST)",
+    if tprob tp 1 3 > SSVerif.Generated.Ranges.tmatWorstScore then "hmm3.skip1->3.present" else "hmm3.skip1->3.absent",
+    if tprob tp 0 2 > SSVerif.Generated.Ranges.tmatWorstScore then "hmm3.skip0->2.present" else
+      (if a.t2 = SSVerif.Generated.Ranges.intMin then "hmm3.skip0->2.absent(t2=INT_MIN)" else "hmm3.skip0->2.absent(t2 stale from exit block)"),
+    if s1 > WORST ∧ a.out = WORST then "hmm3.exit.clamped" else "hmm3.exit.not-clamped",
+    if p.2 = 0 then "hmm3.s2.from-self" else if p.2 = 1 then "hmm3.s2.from-prev" else "hmm3.s2.from-skip",
+    if p.1 < WORST then "hmm3.s2.clamped" else "hmm3.s2.not-clamped",
+    if s1 + tprob tp 1 1 > s0 + tprob tp 0 1 then "hmm3.s1.from-self" else "hmm3.s1.from-prev",
+    if (into1 tp s0 s1 0 0).s = WORST then "hmm3.s1.clamped-or-at-WORST" else "hmm3.s1.above-WORST",
+    if s0 + tprob tp 0 0 < WORST then "hmm3.s0.clamped" else "hmm3.s0.not-clamped" ]
+
+def tags5 (tp : Nat → Nat → Nat) (c0 c1 c2 c3 c4 : Int) (h : H5) : List String :=
+  let s4 := h.s4 + -c4
+  let s3 := h.s3 + -c3
+  let s2 := h.s2 + -c2
+  let s1 := h.s1 + -c1
+  let s0 := h.s0 + -c0
+  let p4 := pick3 (s4 + tprob tp 4 4) (s3 + tprob tp 3 4) (s2 + tprob tp 2 4) 0 1 2
+  let p3 := pick3 (s3 + tprob tp 3 3) (s2 + tprob tp 2 3) (s1 + tprob tp 1 3) 0 1 2
+  let p2 := pick3 (s2 + tprob tp 2 2) (s1 + tprob tp 1 2) (s0 + tprob tp 0 2) 0 1 2
+  [ if s3 > WORST then "hmm5.exit.evaluated" else "hmm5.exit.skipped(s3<=WORST)",
+    if s3 > WORST ∧ (exit5 tp s3 s4 h).out = WORST then "hmm5.exit.clamped" else "hmm5.exit.not-clamped",
+    if s2 > WORST then s!"hmm5.s4.evaluated.from-{p4.2}" else "hmm5.s4.skipped(s2<=WORST)",
+    if s2 > WORST ∧ p4.1 < WORST then "hmm5.s4.clamped" else "hmm5.s4.not-clamped",
+    if s1 > WORST then s!"hmm5.s3.evaluated.from-{p3.2}" else "hmm5.s3.skipped(s1<=WORST)",
+    if s1 > WORST ∧ p3.1 < WORST then "hmm5.s3.clamped" else "hmm5.s3.not-clamped",
+    s!"hmm5.s2.from-{p2.2}",
+    if p2.1 < WORST then "hmm5.s2.clamped" else "hmm5.s2.not-clamped",
+    if s1 + tprob tp 1 1 > s0 + tprob tp 0 1 then "hmm5.s1.from-self" else "hmm5.s1.from-prev",
+    if s0 + tprob tp 0 0 < WORST then "hmm5.s0.clamped" else "hmm5.s0.not-clamped" ]
+
+/-- branches of the normalisation / evaluation of one PTM case -/
+def tagsPtm (active : List Bool) (t t1 : TopTab) (r : PtmOut) (m : Mixw) (compall : Bool) : List String :=
+  let raw := (active.zip t).flatMap fun p => if p.1 then p.2.flatMap (fun l => l.map (·.score)) else []
+  let nrm := (active.zip t1).flatMap fun p => if p.1 then p.2.flatMap (fun l => l.map (·.score)) else []
+  [ if nrm.any (· = SSVerif.Generated.Ranges.maxNegAscr) then "ptm.norm.clamped-at-MAX_NEG_ASCR" else "ptm.norm.no-clamp",
+    if nrm.any (fun v => 0 < v ∧ v < SSVerif.Generated.Ranges.maxNegAscr) then "ptm.norm.strictly-inside" else "ptm.norm.only-0-or-clamp",
+    if raw.any (· = SSVerif.Generated.Ranges.int32Min) then "ptm.raw.MAX_NEG_INT32-density" else "ptm.raw.ordinary",
+    if r.topn != t1 then "ptm.eval.knock-out-of-inactive-codebook" else "ptm.eval.no-knock-out",
+    if m.cb.isSome then "ptm.mixw.4bit" else "ptm.mixw.8bit",
+    if compall then "ptm.all-senones" else "ptm.delta-list",
+    if r.best = SSVerif.Generated.Ranges.int32Max then "ptm.eval.nothing-evaluated(best=MAX_INT32)" else
+      (if r.best < 0 then "ptm.eval.best<0" else if r.best = 0 then "ptm.eval.best=0" else "ptm.eval.best>0") ]
+
 
 def tabFn (s : St) : Nat → Nat := fun d => s.tab.getD d 0
 
@@ -55,12 +114,12 @@ def opHmm (a : List Int) : Option (HSt × String) := do
     let h : H3 := { s0 := g sc 0, s1 := g sc 1, s2 := g sc 2, out := g outv 0,
                     h0 := g hi 0, h1 := g hi 1, h2 := g hi 2, hout := g ho 0, best := 0 }
     let r := (hmm3Step (fn2 rows) (c 0) (c 1) (c 2) h).1
-    some (.h3 rows ids r, show3 r)
+    some (.h3 rows ids r, show3 r ++ " #" ++ sepBy "," (tags3 (fn2 rows) (c 0) (c 1) (c 2) h))
   else if n = 5 then
     let h : H5 := { s0 := g sc 0, s1 := g sc 1, s2 := g sc 2, s3 := g sc 3, s4 := g sc 4, out := g outv 0,
                     h0 := g hi 0, h1 := g hi 1, h2 := g hi 2, h3 := g hi 3, h4 := g hi 4, hout := g ho 0, best := 0 }
     let r := (hmm5Step (fn2 rows) (c 0) (c 1) (c 2) (c 3) (c 4) h).1
-    some (.h5 rows ids r, show5 r)
+    some (.h5 rows ids r, show5 r ++ " #" ++ sepBy "," (tags5 (fn2 rows) (c 0) (c 1) (c 2) (c 3) (c 4) h))
   else none
 
 /-- `hmmc enter score hist senscores…`: next frame via the model's own `Frame3.apply` / `Frame5.apply` -/
@@ -72,11 +131,13 @@ def opHmmc (st : HSt) (a : List Int) : Option (HSt × String) := do
   | .h3 rows ids h =>
     let c := fun (i : Nat) => sens.getD (ids.getD i 0).toNat 0
     let r := (Frame3.apply (fn2 rows) h { enter := ent, c0 := c 0, c1 := c 1, c2 := c 2 }).1
-    some (.h3 rows ids r, show3 r)
+    let h' := match ent with | some (sc, hi) => h.enter sc hi | none => h
+    some (.h3 rows ids r, show3 r ++ " #" ++ sepBy "," (tags3 (fn2 rows) (c 0) (c 1) (c 2) h'))
   | .h5 rows ids h =>
     let c := fun (i : Nat) => sens.getD (ids.getD i 0).toNat 0
     let r := (Frame5.apply (fn2 rows) h { enter := ent, c0 := c 0, c1 := c 1, c2 := c 2, c3 := c 3, c4 := c 4 }).1
-    some (.h5 rows ids r, show5 r)
+    let h' := match ent with | some (sc, hi) => h.enter sc hi | none => h
+    some (.h5 rows ids r, show5 r ++ " #" ++ sepBy "," (tags5 (fn2 rows) (c 0) (c 1) (c 2) (c 3) (c 4) h'))
 
 def mkTop (l : List Int) : List TopN :=
   (chunks 2 (l.length / 2) l).map fun p => { cw := (p.getD 0 0).toNat, score := p.getD 1 0 }
@@ -112,7 +173,23 @@ def opPtm (s : St) (a : List Int) : Option String := do
   let t1 := ptmNorm active t
   let r := ptmSenoneEval (tabFn s) m (s2c.map Int.toNat) active t1 compall (deltas.map Int.toNat)
   let flat := r.topn.flatMap fun cbl => cbl.flatMap fun l => l.map (·.score)
-  some s!"s {showInts r.scores} | t {showInts flat}"
+  some (s!"s {showInts r.scores} | t {showInts flat}" ++ " #" ++ sepBy "," (tagsPtm active t t1 r m compall))
+
+/-- `top topn nden | (cw score)×topn | density×nden` : eval_topn then eval_cb on one codebook / stream -/
+def opTop (a : List Int) : Option String := do
+  let topn := (a.getD 0 0).toNat
+  let nden := (a.getD 1 0).toNat
+  let a := a.drop 2
+  let (tt, a) ← cut (topn * 2) a
+  let (dens, a) ← cut nden a
+  if !a.isEmpty then none
+  let score := fun (cw : Nat) => densInt (dens.getD cw 0)
+  let l1 := evalTopn score (mkTop tt)
+  let l2 := evalCb (fun cw => dens.getD cw 0) nden l1
+  let tags := [ if l1 != (mkTop tt).map (fun e => { e with score := score e.cw }) then "top.eval_topn.reordered" else "top.eval_topn.order-kept",
+                if l2 != l1 then "top.eval_cb.inserted" else "top.eval_cb.nothing-inserted",
+                if (l1.map (·.score)).eraseDups.length < l1.length then "top.ties" else "top.no-ties" ]
+  some ("p " ++ showInts (l2.flatMap fun e => [(e.cw : Int), e.score]) ++ " #" ++ sepBy "," tags)
 
 def opSemi (s : St) (a : List Int) : Option String := do
   let g := fun (i : Nat) => (a.getD i 0).toNat
@@ -129,7 +206,14 @@ def opSemi (s : St) (a : List Int) : Option String := do
   let t := (chunks (topn * 2) nfeat tt).map mkTop
   let r := semiEval (tabFn s) m nsen beams t compall (deltas.map Int.toNat)
   let flat := r.topn.flatMap fun l => l.map (·.score)
-  some s!"s {showInts r.scores} | n {showInts (r.counts.map Int.ofNat)} | t {showInts flat}"
+  let u8 := m.cb.isSome && !compall
+  let tags := [ if r.counts.any (· < topn) then "semi.norm.beam-break" else "semi.norm.full",
+                if m.cb.isSome then "semi.mixw.4bit" else "semi.mixw.8bit",
+                if compall then "semi.all-senones" else "semi.delta-list",
+                if r.counts.any (· > 6) then "semi.generic-variant(topn>6)" else "semi.unrolled-variant",
+                if u8 && r.counts.any (fun n => 1 ≤ n ∧ n ≤ 6) then "semi.4bit-unrolled(uint8 w_den)" else "semi.int-w_den",
+                if r.scores.any (· < 0) then "semi.score<0" else "semi.score>=0" ]
+  some (s!"s {showInts r.scores} | n {showInts (r.counts.map Int.ofNat)} | t {showInts flat}" ++ " #" ++ sepBy "," tags)
 
 def step (s : St) (ws : List String) : St × String :=
   match ws with
@@ -148,6 +232,7 @@ def step (s : St) (ws : List String) : St × String :=
     | none => (s, "bad-op")
   | "ptm" :: rest => (s, ((ints rest).bind (opPtm s)).getD "bad-op")
   | "semi" :: rest => (s, ((ints rest).bind (opSemi s)).getD "bad-op")
+  | "top" :: rest => (s, ((ints rest).bind opTop).getD "bad-op")
   | _ => (s, "bad-op")
 
 def main : IO Unit := runLoop step {}
